@@ -25,6 +25,7 @@ type Evidence struct {
 
 // BlockRecord is the canonical content of a block, enough to re-execute it on a replica.
 type BlockRecord struct {
+	Header   tmproto.Header
 	Height   int64
 	Time     time.Time
 	Proposer []byte
